@@ -41,23 +41,55 @@ MANIFEST = dict(
          "isotherms satisfying the criteria (induction over the batches), with 1 + 2 * ceil(rows / n) statements - the count compared with the "
          "cursor.execute calls of every retrieval, on stores larger than the batch size too (every run builds stores of more than one and more than two "
          "batches and retrieves them with and without criteria, comparing with rows read through an independent connection). The "
+         "PYTHON-LEVEL REFUSALS: Db/DbPy.v extends the program trees with the refusals raised by code that runs BETWEEN the statements of one call, "
+         "after its first writes (a property / metadata value sqlite3 cannot bind: dict, nested list, object -> ProgrammingError, integer beyond 64 bits -> "
+         "OverflowError, lone surrogate -> UnicodeEncodeError; an extra data column whose element type find_SQL_python_type has no name for -> ParsingError "
+         "raised by the body; an argument that is no isotherm; an unbindable argument of a deletion / retrieval) - exceptions with_connection has no handler "
+         "for.  Proved: such a call, under every fault, leaves the file as it was, is all-or-nothing and preserves the invariant; on storable input the "
+         "extended programs ARE the programs of Db/DbModel.v (program trees equal, functional extensionality); and for the try / except / else / finally "
+         "skeleton of with_connection GENERATED from the source on every run, interpreted with Python's semantics over a transaction that holds what the "
+         "body wrote before it raised, no path on which the caller gets no result publishes anything (a commit in a handler or in `finally` breaks this "
+         "theorem; witness commit_in_finally_half_commits_refuted).  Every upload of every history goes through the extended programs; histories contain "
+         "uploads refused part-way at every such place (new / overwrite / inside an auto-inserting isotherm upload / metadata / data columns), each followed "
+         "by retrievals and the corrected upload; a refused call that changed any table row is reported with the call as failing input. The "
          "hand-written model is tied to the code on every run by executing it inside Coq against the implementation on random histories (outcome, "
          "statement count, every table row, counters, registries, retrieval results after every call).",
     note="Trusted: Coq kernel; SQLite/sqlite3 behaving as the constraint model says (validated by the table-level comparison after every call); "
          "the harness (interning of strings/numbers to integers, independent dump connection); isotherm construction / iso_id (C05) as oracle.",
     technique="Coq proofs over a statement-tree model (induction over programs and histories) + dictionary model and table model executed in Coq against real histories")
 
-EXTRA_TARGETS = ['Db/DbShow.vo']
+EXTRA_TARGETS = ['Db/DbShow.vo', 'Db/DbPyShow.vo']
 HEADER = """From Coq Require Import ZArith List Bool.
 From PG Require Import Db.DbModel Db.DbSpec Db.DbShow.
 Import ListNotations. Open Scope Z_scope.
 """
+# c08's own evaluations go through the programs of Db/DbPy.v (operations as Python hands them over: values that may be unbindable)
+HEADER_PY = HEADER.replace('Db.DbShow.', 'Db.DbShow Db.DbPy Db.DbPyShow.')
 TABLES = ['adsorbates', 'adsorbate_properties', 'adsorbate_properties_type', 'materials', 'material_properties',
           'material_properties_type', 'isotherm_type', 'isotherms', 'isotherm_properties', 'isotherm_data']
 SEQ = ['adsorbates', 'adsorbate_properties', 'adsorbate_properties_type', 'materials', 'material_properties', 'material_properties_type',
        'isotherm_type', 'isotherm_properties', 'isotherm_data']
 NUMPOOL = {'1e5': 100000.0, '12': 12.0, '0.5': 0.5, '-3': -3.0, '0': 0.0}
-OC = {0: 'Ok', 3: 'ParsingError', 10: 'OperationalError', 11: 'other', 12: 'died', 13: 'other:IntegrityError', 14: 'other:InterfaceError'}
+OC = {0: 'Ok', 3: 'ParsingError', 10: 'OperationalError', 11: 'other', 12: 'died', 13: 'other:IntegrityError', 14: 'other:InterfaceError',
+      # Db/DbPy.v: exceptions raised by Python-level code between two statements (EExc k -> 100 + k); 108 = a ParsingError raised by the body itself
+      101: 'other:ProgrammingError', 106: 'other:OverflowError', 107: 'other:UnicodeEncodeError', 108: 'ParsingError'}
+K_PROGRAMMING, K_OVERFLOW, K_UNICODE, K_PARSING = 1, 6, 7, 8
+
+
+def pykind(v):
+    """None: sqlite3 can bind this Python value; else the class (Db/DbPy.v K_*) of the exception binding raises - decided from the TYPE of the
+    value (the sqlite3 documentation: None, int within 64 bits, float, str that encodes as UTF-8, bytes-like)"""
+    if v is None or isinstance(v, (bool, float, bytes, bytearray, memoryview)):
+        return None
+    if isinstance(v, int):
+        return None if -2 ** 63 <= v < 2 ** 63 else K_OVERFLOW
+    if isinstance(v, str):
+        try:
+            v.encode('utf8')
+            return None
+        except UnicodeEncodeError:
+            return K_UNICODE
+    return K_PROGRAMMING
 UNITS = dict(pressure_mode='absolute', pressure_unit='bar', loading_basis='molar', loading_unit='mmol', material_basis='mass',
              material_unit='g', temperature_unit='K')
 
@@ -91,6 +123,11 @@ class Intern:
         if isinstance(v, (int, float)): return '(VNum %d)' % self.num(v)
         if v in NUMPOOL: return '(VNumText %d %d)' % (self.atom(v), self.num(NUMPOOL[v]))
         return '(VText %d)' % self.atom(v)
+
+    def pvlit(self, v):
+        """a Python value handed to cursor.execute -> Coq `pyval` (Db/DbPy.v)"""
+        k = pykind(v)
+        return '(PV %s)' % self.vlit(v) if k is None else '(PBad %d)' % k
 
     def slit(self, v):
         """a value as found IN a table"""
@@ -303,10 +340,17 @@ class Impl:
             os.remove(self.lean)
         for pragma in PRAGMAS:
             db_execute_general(pragma, self.lean, verbose=False)
-        for name in SHIPPED:
-            S.adsorbate_to_db(pygaps.Adsorbate.find(name), db_path=self.lean, autoinsert_properties=True, verbose=False)
-        for t in ('isotherm', 'pointisotherm', 'modelisotherm'):
-            S.isotherm_type_to_db({'type': t}, db_path=self.lean, verbose=False)
+        self.lean_error = None
+        try:
+            for name in SHIPPED:
+                S.adsorbate_to_db(pygaps.Adsorbate.find(name), db_path=self.lean, autoinsert_properties=True, verbose=False)
+            for t in ('isotherm', 'pointisotherm', 'modelisotherm'):
+                S.isotherm_type_to_db({'type': t}, db_path=self.lean, verbose=False)
+        except Exception as e:  # noqa
+            # a well-formed upload into a freshly created file is refused right after the same uploads went into ANOTHER file of this
+            # process (db_create above): reported by explore() as a violation; the campaign goes on with a copy of the template
+            self.lean_error = '%s: %s' % (type(e).__name__, str(e)[:200])
+            shutil.copyfile(self.template, self.lean)
         self.reset_registry()
         S.sqlite3 = self.px
 
@@ -347,6 +391,10 @@ def plist_lit(ps, I):
     return '[' + '; '.join('(%d, [%s])' % (I.atom(k), '; '.join(I.vlit(v) for v in vs)) for k, vs in ps) + ']'
 
 
+def pplist_lit(ps, I):
+    return '[' + '; '.join('(%d, [%s])' % (I.atom(k), '; '.join(I.pvlit(v) for v in vs)) for k, vs in ps) + ']'
+
+
 def make_iso(spec):
     """build the isotherm object an op describes (at call time: Material.find / Adsorbate.find read the registries)"""
     import pandas as pd
@@ -354,16 +402,76 @@ def make_iso(spec):
     from pygaps.core.baseisotherm import BaseIsotherm
     from pygaps.modelling import model_from_dict
     kw = dict(UNITS); kw.update(spec['meta'])
-    kw.update(material=spec['mat'], adsorbate=spec['ads'], temperature=spec['T'])
+    mat = spec['mat']
+    if spec.get('matprops') is not None:
+        # the material as an object with its own properties (what an auto-inserting upload writes); a registered material of that name wins,
+        # as in Material.find
+        try:
+            mat = pygaps.Material.find(spec['mat'])
+        except Exception:  # noqa
+            mat = pygaps.Material(spec['mat'], **{k: (list(v) if isinstance(v, list) else v) for k, v in spec['matprops'].items()})
+    kw.update(material=mat, adsorbate=spec['ads'], temperature=spec['T'])
+    if spec['cls'] == 'duck':
+        # an argument that is no isotherm but has what isotherm_to_db reads before it looks at the type
+        import types
+        m = mat if not isinstance(mat, str) else None
+        if m is None:
+            try:
+                m = pygaps.Material.find(mat)
+            except Exception:  # noqa
+                m = pygaps.Material(mat)
+        try:
+            ads = pygaps.Adsorbate.find(spec['ads'])
+        except Exception:  # noqa
+            ads = pygaps.Adsorbate(spec['ads'])
+        return types.SimpleNamespace(material=m, adsorbate=ads, iso_id='d0c0' * 7 + '%04d' % spec.get('n', 0))
     if spec['cls'] == 'point':
         df = pd.DataFrame({'pressure': spec['p'], 'loading': spec['l']})
         if spec.get('extra'):
             df['enthalpy'] = spec['extra']
+        for name, col in (spec.get('extras') or []):
+            df[name] = col
         return pygaps.PointIsotherm(isotherm_data=df, pressure_key='pressure', loading_key='loading', **kw)
     if spec['cls'] == 'model':
         m = model_from_dict({'name': 'Henry', 'parameters': {'K': spec['K']}, 'rmse': 0.1, 'pressure_range': [0.0, 1.0], 'loading_range': [0.0, 2.0]})
         return pygaps.ModelIsotherm(model=m, **kw)
     return BaseIsotherm(**kw)
+
+
+SQL_NAMES = [(bool, 'bool'), (int, 'int'), (float, 'float'), (str, 'str')]      # the element types the isotherm_data table has a name for
+
+
+def iso_py_input(iso, I):
+    """what isotherm_to_db reads from its argument, as Python hands it over -> (the model's `pisoin` (Db/DbPy.v), storable?)"""
+    import pygaps
+    a = I.atom
+    matps = flat_props(iso.material.to_dict())
+    adsps = flat_props(iso.adsorbate.to_dict())
+    ty = ('pointisotherm' if isinstance(iso, pygaps.PointIsotherm) else 'modelisotherm' if isinstance(iso, pygaps.ModelIsotherm)
+          else 'isotherm' if isinstance(iso, pygaps.core.baseisotherm.BaseIsotherm) else None)
+    d, data, temp = {}, [], None
+    if ty is not None:
+        d = iso.to_dict()
+        for k in ('material', 'temperature', 'adsorbate'):
+            d.pop(k, None)
+        temp = iso._temperature
+    if ty == 'pointisotherm':
+        data.append(('pressure', 'float', json.dumps(iso.pressure().tolist())))
+        data.append(('loading', 'float', json.dumps(iso.loading().tolist())))
+        for key in iso.other_keys:
+            first = iso.other_data(key)[0]
+            name = next((n for t, n in SQL_NAMES if isinstance(first, t)), None)       # the Python type of the column's elements
+            data.append((key, name, json.dumps(iso.other_data(key).tolist()) if name else None))
+    elif ty == 'modelisotherm':
+        data.append(('model', 'dict', json.dumps(iso.model.to_dict())))
+    storable = (ty is not None and all(pykind(v) is None for _, vs in matps + adsps for v in vs) and all(pykind(v) is None for v in d.values())
+                and all(dt is not None for _, dt, _ in data))
+    term = '(mkPIn %d %s %d %s %d %s %s [%s] [%s])' % (
+        a(iso.iso_id), '(Some %d)' % a(ty) if ty else 'None', a(iso.material.name), pplist_lit(matps, I),
+        a(iso.adsorbate.name), pplist_lit(adsps, I), I.vlit(temp),
+        '; '.join('(%d, %s)' % (a(k), I.pvlit(v)) for k, v in d.items()),
+        '; '.join(('DRow %d %d %d' % (a(t), a(dt), a(js))) if dt is not None else 'DRefuse %d' % K_PARSING for t, dt, js in data))
+    return term, storable
 
 
 def iso_model_input(iso, I):
@@ -401,14 +509,19 @@ def apply_op(im, op, path, I):
     k = op['k']
     obj = None
     res = None
+    term = pterm = None
     im.px.reset()
     im.last_exc = None
+    im.last_pterm = None
     try:
         if k == 'EntUp':
             cls = pygaps.Adsorbate if op['e'] == 'ads' else pygaps.Material
             obj = cls(op['name'], **{kk: (list(v) if isinstance(v, list) else v) for kk, v in op['props'].items()})
-            term = '(EntUp %s %d %s %s %s)' % (ENT[op['e']], I.atom(obj.name), plist_lit(flat_props(obj.to_dict()), I),
-                                              'true' if op['auto'] else 'false', 'true' if op['ow'] else 'false')
+            fps = flat_props(obj.to_dict())
+            tail = ('true' if op['auto'] else 'false', 'true' if op['ow'] else 'false')
+            term = ('(EntUp %s %d %s %s %s)' % ((ENT[op['e']], I.atom(obj.name), plist_lit(fps, I)) + tail)
+                    if all(pykind(v) is None for _, vs in fps for v in vs) else None)
+            pterm = '(PEntUp %s %d %s %s %s)' % ((ENT[op['e']], I.atom(obj.name), pplist_lit(fps, I)) + tail)
             f = S.adsorbate_to_db if op['e'] == 'ads' else S.material_to_db
             call = lambda: f(obj, db_path=path, autoinsert_properties=op['auto'], overwrite=op['ow'], verbose=False)
         elif k == 'EntGet':
@@ -424,7 +537,9 @@ def apply_op(im, op, path, I):
                 d['unit'] = op['unit']
             if op.get('desc') is not None:
                 d['description'] = op['desc']
-            term = '(TyUp %s %d %s %s %s)' % (TSEL[op['t']], I.atom(op['ty']), I.vlit(d.get('unit')), I.vlit(d.get('description')), 'true' if op['ow'] else 'false')
+            term = ('(TyUp %s %d %s %s %s)' % (TSEL[op['t']], I.atom(op['ty']), I.vlit(d.get('unit')), I.vlit(d.get('description')), 'true' if op['ow'] else 'false')
+                    if pykind(d.get('unit')) is None and pykind(d.get('description')) is None else None)
+            pterm = '(PTyUp %s %d %s %s %s)' % (TSEL[op['t']], I.atom(op['ty']), I.pvlit(d.get('unit')), I.pvlit(d.get('description')), 'true' if op['ow'] else 'false')
             f = {'ads': S.adsorbate_property_type_to_db, 'mat': S.material_property_type_to_db, 'iso': S.isotherm_type_to_db, 'isoprop': S.isotherm_property_type_to_db}[op['t']]
             call = lambda: f(d, db_path=path, overwrite=op['ow'], verbose=False)
         elif k == 'TyGet':
@@ -437,7 +552,9 @@ def apply_op(im, op, path, I):
             call = lambda: f(op['ty'], db_path=path, verbose=False)
         elif k == 'IsoUp':
             obj = make_iso(op['iso'])
-            term = '(IsoUp %s %s %s)' % (iso_model_input(obj, I), 'true' if op['am'] else 'false', 'true' if op['aa'] else 'false')
+            pin, storable = iso_py_input(obj, I)
+            term = '(IsoUp %s %s %s)' % (iso_model_input(obj, I), 'true' if op['am'] else 'false', 'true' if op['aa'] else 'false') if storable else None
+            pterm = '(PIsoUp %s %s %s)' % (pin, 'true' if op['am'] else 'false', 'true' if op['aa'] else 'false')
             call = lambda: S.isotherm_to_db(obj, db_path=path, autoinsert_material=op['am'], autoinsert_adsorbate=op['aa'], verbose=False)
         elif k == 'IsoGet':
             c = op['crit']
@@ -450,8 +567,25 @@ def apply_op(im, op, path, I):
             target = op['target']          # an iso_id string, decided by the driver
             term = '(IsoDel %d)' % I.atom(target)
             call = lambda: S.isotherm_delete_db(op.get('through', target), db_path=path, verbose=False)
+        elif k == 'ArgBad':
+            # a deletion / retrieval whose argument sqlite3 cannot bind: refused by the first statement of the call
+            bad = op['arg']
+            term = None
+            pterm = '(PArgBad %d)' % pykind(bad)
+            w, t = op['which'], op.get('t', 'mat')
+            if w == 'EntDel':
+                call = lambda: (S.adsorbate_delete_db if t == 'ads' else S.material_delete_db)(bad, db_path=path, verbose=False)
+            elif w == 'TyDel':
+                call = lambda: {'ads': S.adsorbate_property_type_delete_db, 'mat': S.material_property_type_delete_db, 'iso': S.isotherm_type_delete_db}[t](bad, db_path=path, verbose=False)
+            elif w == 'IsoDel':
+                call = lambda: S.isotherm_delete_db(bad, db_path=path, verbose=False)
+            else:
+                call = lambda: S.isotherms_from_db({op.get('col', 'material'): bad}, db_path=path, verbose=False)
         else:
             raise AssertionError(k)
+        if pterm is None:
+            pterm = '(POp %s)' % term
+        im.last_pterm = pterm
         res = call()
         oc = 'Ok'
     except BaseException as e:  # noqa
@@ -530,7 +664,26 @@ WORDS = ['alpha', 'beta', 'gamma', 'x y', 'ok']
 ZEROLIKE = [0.0, '', 0, -0.0]
 
 
-def gen_value(rnd, numeric_text=0.08, none=0.03, lists=0.06):
+# values sqlite3 cannot bind (Db/DbPy.v): refused by Python-level code when the statement that would store them is reached - AFTER the rows
+# the call wrote before.  As property values of an adsorbate / material (a list is stored element by element) ...
+BAD_PROP = [{'a': 1}, [['x', 'y']], ['ok', {'k': 2}], 2 ** 70, -2 ** 65, 'sur\ud800', ['fine', 2 ** 64], [1.5, 'two', 'thr\udc00ee']]
+# ... and as isotherm metadata (bound as they are)
+BAD_META = [['a', 'b'], {'k': 1}, 2 ** 70, 'sur\ud800', [], [3.5]]
+# extra data columns of a PointIsotherm: (name, element kind); the isotherm_data table has names for Python bool / int / float / str elements only
+EXTRA_COLS = [('cycle', 'int'), ('valve', 'bool'), ('remark', 'str'), ('heat', 'float'), ('stamp', 'bigint')]
+
+
+def extra_column(kind, n, rnd):
+    if kind == 'int': return [int(rnd.randint(1, 4) + i) for i in range(n)]               # numpy.int64 elements
+    if kind == 'bool': return [bool((i + rnd.randint(0, 1)) % 2) for i in range(n)]        # numpy.bool_ elements
+    if kind == 'str': return [rnd.choice(WORDS) for _ in range(n)]
+    if kind == 'bigint': return [2 ** 70 + i for i in range(n)]                            # Python ints in an object column
+    return [round(2.0 + 0.25 * i, 2) for i in range(n)]
+
+
+def gen_value(rnd, numeric_text=0.08, none=0.03, lists=0.06, pybad=0.0):
+    if pybad and rnd.random() < pybad:
+        return rnd.choice(BAD_PROP)
     r = rnd.random()
     if r < numeric_text: return rnd.choice(sorted(NUMPOOL))
     r -= numeric_text
@@ -542,7 +695,7 @@ def gen_value(rnd, numeric_text=0.08, none=0.03, lists=0.06):
     return rnd.choice([rnd.choice(WORDS), round(rnd.uniform(0.5, 9.5), 2), float(rnd.randint(1, 5)), rnd.randint(1, 9)])
 
 
-def gen_iso(rnd):
+def gen_iso(rnd, pybad=0.0):
     cls = rnd.choice(['point', 'point', 'model', 'base'])
     meta = {}
     for key in rnd.sample(['operator', 'batch', 'note', 'flag', 'run'], rnd.randint(0, 3)):
@@ -560,19 +713,41 @@ def gen_iso(rnd):
             spec['extra'] = [round(5.0 - 0.3 * i, 2) for i in range(n)]
     if cls == 'model':
         spec['K'] = round(rnd.uniform(0.5, 5), 3)
+    if pybad:
+        if rnd.random() < pybad:                         # one metadata value that cannot be bound, at a random place among the others
+            items = list(meta.items())
+            items.insert(rnd.randint(0, len(items)), (rnd.choice(['tags', 'history', 'serial']), rnd.choice(BAD_META)))
+            spec['meta'] = dict(items)
+        if cls == 'point' and rnd.random() < 3 * pybad:  # further data columns, of element types with and without an SQL name
+            n = len(spec['p'])
+            spec['extras'] = [(name, extra_column(kind, n, rnd)) for name, kind in rnd.sample(EXTRA_COLS, rnd.randint(1, 3))]
+        if rnd.random() < 2 * pybad:                     # the material comes with properties of its own (written by an auto-inserting upload)
+            spec['matprops'] = {t: gen_value(rnd, lists=0, none=0, pybad=0.5) for t in rnd.sample(PTYPES, rnd.randint(1, 3))}
+        if rnd.random() < pybad / 2:
+            spec['cls'] = 'duck'; spec['n'] = rnd.randint(0, 9999)
     return spec
 
 
-def gen_history(rnd, nfiles, maxlen):
-    """op descriptors; targets of deletions/retrievals are chosen by the driver from what was uploaded so far"""
+def gen_argbad(rnd, f):
+    which = rnd.choice(['EntDel', 'TyDel', 'IsoDel', 'IsoGet'])
+    return dict(k='ArgBad', f=f, which=which, t=rnd.choice(['ads', 'mat', 'iso'] if which == 'TyDel' else ['ads', 'mat']),
+                col=rnd.choice(['material', 'adsorbate', 'temperature']), arg=rnd.choice([{'a': 1}, ['x'], 2 ** 70, 'sur\ud800']))
+
+
+def gen_history(rnd, nfiles, maxlen, pybad=0.0):
+    """op descriptors; targets of deletions/retrievals are chosen by the driver from what was uploaded so far.
+    pybad: share of uploads carrying something Python-level code refuses part-way (Db/DbPy.v)"""
     H = []
     for _ in range(rnd.randint(3, maxlen)):
         f = rnd.randrange(nfiles)
         r = rnd.random()
+        if pybad and rnd.random() < pybad / 4:
+            H.append(gen_argbad(rnd, f))
+            continue
         if r < 0.20:
             e = rnd.choice(['ads', 'mat'])
             name = rnd.choice(UADS + ['nitrogen'] if e == 'ads' else MATS)
-            props = {t: gen_value(rnd) for t in rnd.sample(PTYPES, rnd.randint(0, 3))}
+            props = {t: gen_value(rnd, pybad=pybad) for t in rnd.sample(PTYPES, rnd.randint(0, 3))}
             if e == 'ads' and rnd.random() < 0.3:
                 props['alias'] = [name + '_al']
             H.append(dict(k='EntUp', f=f, e=e, name=name, props=props, auto=rnd.random() < 0.8, ow=rnd.random() < 0.25))
@@ -585,13 +760,15 @@ def gen_history(rnd, nfiles, maxlen):
             t = rnd.choice(['ads', 'mat', 'iso', 'ads', 'mat', 'iso', 'isoprop'])
             ty = rnd.choice(PTYPES + (['isotherm', 'pointisotherm', 'special'] if t == 'iso' else []))
             H.append(dict(k='TyUp', f=f, t=t, ty=ty, unit=rnd.choice([None, 'g/cm3', 'K']), desc=rnd.choice([None, 'some text']), ow=rnd.random() < 0.25))
+            if pybad and rnd.random() < pybad:
+                H[-1][rnd.choice(['unit', 'desc'])] = rnd.choice([{'a': 1}, ['K'], 2 ** 70, 'sur\ud800'])
         elif r < 0.53:
             t = rnd.choice(['ads', 'mat', 'iso', 'ads', 'mat', 'iso', 'isoprop'])
             H.append(dict(k='TyDel', f=f, t=t, ty=rnd.choice(PTYPES + (['modelisotherm', 'special'] if t == 'iso' else []))))
         elif r < 0.57:
             H.append(dict(k='TyGet', f=f, t=rnd.choice(['ads', 'mat', 'iso', 'isoprop'])))
         elif r < 0.80:
-            H.append(dict(k='IsoUp', f=f, iso=gen_iso(rnd), am=rnd.random() < 0.8, aa=rnd.random() < 0.8, again=rnd.random() < 0.15))
+            H.append(dict(k='IsoUp', f=f, iso=gen_iso(rnd, pybad), am=rnd.random() < 0.8, aa=rnd.random() < 0.8, again=rnd.random() < 0.15))
         elif r < 0.90:
             H.append(dict(k='IsoDel', f=f, how=rnd.choice(['id', 'object', 'retrieved', 'absent'])))
         else:
@@ -706,6 +883,72 @@ def gen_scenarios(rnd):
     return out
 
 
+def gen_refusal_scenarios(rnd):
+    """one history per operation shape in which Python-level code refuses the call AFTER its first write (Db/DbPy.v), each followed by
+    retrievals and by the corrected call (which must be accepted, and be the only one of its kind in the store).  The places in
+    parsing/sqlite.py: the binding of a property value in adsorbate_to_db / material_to_db (new, overwrite, inside an auto-inserting isotherm
+    upload), of a metadata value in isotherm_to_db, find_SQL_python_type on an extra data column, the isotherm type test."""
+    val = lambda: gen_value(rnd, numeric_text=0, none=0, lists=0)      # noqa
+    out = []
+    for e, pool in (('mat', MATS), ('ads', UADS)):
+        n1, n2 = rnd.sample(pool, 2)
+        ts = rnd.sample(PTYPES, 4)
+        good = {t: val() for t in ts[:rnd.randint(1, 3)]}
+        bad = dict(good); bad[ts[3]] = rnd.choice(BAD_PROP)
+        if rnd.random() < 0.5:
+            bad = dict(reversed(list(bad.items())) if rnd.random() < 0.3 else bad.items())
+        out.append((1, [
+            dict(k='EntUp', f=0, e=e, name=n1, props=bad, auto=rnd.random() < 0.7, ow=False), dict(k='EntGet', f=0, e=e), dict(k='TyGet', f=0, t=e),
+            dict(k='EntUp', f=0, e=e, name=n1, props=good, auto=True, ow=False), dict(k='EntGet', f=0, e=e),
+            # overwrite: the first write is the deletion of the stored properties
+            dict(k='EntUp', f=0, e=e, name=n1, props=dict({ts[0]: val()}, **{ts[3]: rnd.choice(BAD_PROP)}), auto=True, ow=True), dict(k='EntGet', f=0, e=e),
+            dict(k='EntUp', f=0, e=e, name=n2, props={ts[1]: rnd.choice(BAD_PROP)}, auto=True, ow=False),
+            dict(k='EntDel', f=0, e=e, name=n2, bystr=True), dict(k='EntDel', f=0, e=e, name=n1, bystr=rnd.random() < 0.5), dict(k='EntGet', f=0, e=e)]))
+    def iso(cls, m, a, **kw):
+        sp = dict(cls=cls, mat=m, ads=a, T=rnd.choice([77.0, 87.3]), meta={'operator': rnd.choice(WORDS), 'run': round(rnd.uniform(1, 5), 2)})
+        if cls == 'point':
+            sp.update(p=[0.1, 0.25, 0.5], l=[0.5, 1.25, 1.5])
+        if cls == 'model':
+            sp['K'] = 1.5
+        sp.update(kw)
+        return sp
+    # -- the auto-inserted material carries a value that cannot be bound
+    m, a = rnd.choice(MATS), rnd.choice(UADS + SHIPPED)
+    t1, t2 = rnd.sample(PTYPES, 2)
+    cls = rnd.choice(['point', 'model', 'base'])
+    out.append((1, [
+        dict(k='IsoUp', f=0, iso=iso(cls, m, a, matprops={t1: val(), t2: rnd.choice(BAD_PROP)}), am=True, aa=True, again=False),
+        dict(k='EntGet', f=0, e='mat'), dict(k='IsoGet', f=0, crit={}),
+        dict(k='EntUp', f=0, e='mat', name=m, props={t1: val()}, auto=True, ow=False), dict(k='EntGet', f=0, e='mat')]))
+    # -- metadata that cannot be bound, among storable ones; an extra column without an SQL type name after one with
+    for variant in ('meta', 'column', 'duck'):
+        m, a = rnd.choice(MATS), rnd.choice(UADS)
+        cls = 'point' if variant == 'column' else rnd.choice(['point', 'model', 'base'])
+        good = iso(cls, m, a)
+        bad = dict(good)
+        if variant == 'meta':
+            items = list(good['meta'].items()); items.insert(rnd.randint(0, len(items)), ('tags', rnd.choice(BAD_META)))
+            bad['meta'] = dict(items)
+        elif variant == 'column':
+            cols = [('heat', extra_column('float', 3, rnd)), rnd.choice([('cycle', extra_column('int', 3, rnd)), ('valve', extra_column('bool', 3, rnd))])]
+            bad['extras'] = cols
+            good = dict(good, extras=[(cols[0][0], cols[0][1]), (cols[1][0], [float(x) for x in cols[1][1]])])
+        else:
+            bad = dict(good, cls='duck', n=rnd.randint(0, 9999))
+        am = variant == 'duck'
+        pre = [] if am else [dict(k='EntUp', f=0, e='mat', name=m, props={}, auto=True, ow=False)]
+        out.append((1, pre + [
+            dict(k='EntUp', f=0, e='ads', name=a, props={'molar_mass': 30.0}, auto=True, ow=False),
+            dict(k='IsoUp', f=0, iso=bad, am=am, aa=False, again=False), dict(k='IsoGet', f=0, crit={}), dict(k='EntGet', f=0, e='mat'),
+            dict(k='IsoUp', f=0, iso=good, am=am, aa=False, again=False), dict(k='IsoGet', f=0, crit={'material': m}),
+            dict(k='IsoDel', f=0, how='id'), dict(k='IsoGet', f=0, crit={})]))
+    # -- single-statement calls and arguments refused by the first statement
+    out.append((1, [dict(k='TyUp', f=0, t=t, ty=rnd.choice(PTYPES), unit=rnd.choice([{'a': 1}, 2 ** 70]) if t != 'iso' else None,
+                         desc={'d': 1} if t == 'iso' else None, ow=w) for t in ('ads', 'mat', 'iso') for w in (False, True)]
+                + [gen_argbad(rnd, 0) for _ in range(4)] + [dict(k='TyGet', f=0, t='mat'), dict(k='EntGet', f=0, e='ads')]))
+    return out
+
+
 def independent_select(path, crit):
     """the rows of `isotherms` that satisfy the criteria, read through an independent connection (SQLite evaluates the WHERE clause)"""
     c = sqlite3.connect('file:%s?mode=ro' % path, uri=True)
@@ -775,7 +1018,7 @@ def has_numtext(op):
     if op['k'] == 'EntUp':
         vals = list(op['props'].values())
     if op['k'] == 'IsoUp':
-        vals = list(op['iso']['meta'].values())
+        vals = list(op['iso']['meta'].values()) + list((op['iso'].get('matprops') or {}).values())      # metadata + the properties of an auto-inserted material
     return any(isinstance(v, str) and v in NUMPOOL for v in vals)
 
 
@@ -810,6 +1053,10 @@ def explore(rep, tier, seed, nh=None, maxlen=None, bulk=True):
     work = scratch_dir('c08_%d' % os.getpid())
     im = Impl(work)
     I = Intern()
+    if im.lean_error:
+        rep.failure('C08:unclassified:outcome-depends-on-another-file:EntUp',
+                    'uploading shipped adsorbates (autoinsert_properties=True) into a freshly created empty file is refused (%s) after the same uploads went into another file of this process' % im.lean_error,
+                    {'kind': 'outcome-depends-on-another-file', 'ops': ['db_create(template.db)', 'PRAGMAS on lean.db', 'adsorbate_to_db(shipped adsorbate, lean.db, autoinsert_properties=True)'], 'observed': im.lean_error})
     try:
         raw0 = raw_dump(im.template)
         base_names = {I.atom(r[1]) for r in raw0['adsorbates']}
@@ -836,17 +1083,17 @@ def explore(rep, tier, seed, nh=None, maxlen=None, bulk=True):
             runs.append(run_history(im, I, H, 1, raw1, lean=True, cuts=cuts))
         rep.cov['bulk_stores'] = [n for n, _ in bulk_sizes]
         nbulk = len(runs)
-        for nfiles, H in gen_scenarios(rnd):
+        for nfiles, H in gen_scenarios(rnd) + gen_refusal_scenarios(rnd):
             runs.append(run_history(im, I, H, nfiles, raw0))
         for hi in range(nh):
             nfiles = rnd.choice([1, 1, 2, 3])
-            H = gen_history(rnd, nfiles, maxlen)
+            H = gen_history(rnd, nfiles, maxlen, pybad=0.06 if hi % 3 == 0 else 0.0)
             runs.append(run_history(im, I, H, nfiles, raw0))
     finally:
         im.close()
-    header = HEADER + 'Definition db0 := %s.\nDefinition db1 := %s.\nDefinition reg0 := %s.\nDefinition base := %s.\n' % (db0, db1, reg0, zl(sorted(base_names)))
+    header = HEADER_PY + 'Definition db0 := %s.\nDefinition db1 := %s.\nDefinition reg0 := %s.\nDefinition base := %s.\n' % (db0, db1, reg0, zl(sorted(base_names)))
     def hist_term(start, reg, steps):
-        return '(show_hist base %s %s [%s])' % (start, reg, '; '.join('(%d%%nat, %s)' % (s['f'], s['term']) for s in steps))
+        return '(show_hist_py base %s %s [%s])' % (start, reg, '; '.join('(%d%%nat, %s)' % (s['f'], s['pterm']) for s in steps))
     terms = [hist_term('[' + '; '.join(['db1' if r['lean'] else 'db0'] * r['nfiles']) + ']', 'reg0', r['steps']) for r in runs[nbulk:]]
     bterms, bmap = [], []
     for bi, r in enumerate(runs[:nbulk]):
@@ -893,9 +1140,9 @@ def implementation_verdicts(rep, items, I, header, raw0):
             cap = {}
             again = run_history(im, I, H, r['nfiles'], raw0[1] if r['lean'] else raw0[0], capture=(si, cap), lean=r['lean'])
             st = again['steps'][si]
-            if 'before' not in cap or st['term'] != r['steps'][si]['term']:
+            if 'before' not in cap or st['pterm'] != r['steps'][si]['pterm']:
                 continue
-            terms.append('(spec_verdict %s %s %s)' % (st['term'], db_literal(cap['before'], I), db_literal(cap['after'], I)))
+            terms.append('(spec_verdict_py %s %s %s)' % (st['pterm'], db_literal(cap['before'], I), db_literal(cap['after'], I)))
             keep.append((st, fail))
     finally:
         im.close()
@@ -920,7 +1167,7 @@ def check_wf(rep, header, names):
     """the hypothesis `wf d` of the refinement / invariant theorems, DECIDED inside Coq (DbInv.wfb, sound by well_formedness_check_is_sound) for
     the concrete contents the histories of this run start from (what db_create ships / the prepared files of C09)"""
     try:
-        res = vlib.run_coq_cases('c08w', header.replace('Db.DbShow.', 'Db.DbShow Db.DbInv.'), 'fun b : bool => (if b then 1 else 0, 0)',
+        res = vlib.run_coq_cases('c08w', header.replace('Import ListNotations.', 'From PG Require Import Db.DbInv.\nImport ListNotations.', 1), 'fun b : bool => (if b then 1 else 0, 0)',
                                  ['(wfb %s)' % n for n in names], per_file=50, timeout=600)
         bad = [n for n, v in zip(names, res) if v[0] != 1]
         rep.cov['initial_contents_well_formed'] = '%d of %d (DbInv.wfb evaluated inside Coq on %s)' % (len(names) - len(bad), len(names), ', '.join(names))
@@ -929,6 +1176,16 @@ def check_wf(rep, header, names):
             rep.broken_obligation('hypothesis:wf(%s)' % n, 'the initial table content %s violates the well-formedness invariant of Db/DbInv.v (wfb = false)' % n)
     except RuntimeError as e:
         rep.broken_obligation('hypothesis:wf-evaluation', str(e)[-800:])
+
+
+def aux_retrieve(call, ctx):
+    """a retrieval the harness makes for its own checks (round trip, deletion through the retrieved object): a store the library itself can no
+    longer read is recorded as a failed check of the step, not an error of the harness"""
+    try:
+        return list(call())
+    except Exception as e:  # noqa
+        ctx['retrieval_raises'] = 'retrieving everything from the file raises %s: %s' % (type(e).__name__, str(e)[:160])
+        return []
 
 
 def run_history(im, I, H, nfiles, raw0, capture=None, lean=False, cuts=()):
@@ -962,7 +1219,7 @@ def run_history(im, I, H, nfiles, raw0, capture=None, lean=False, cuts=()):
                     op['through'] = obj
                 elif op['how'] == 'retrieved':
                     im.px.n = 0
-                    got = [x for x in im.S.isotherms_from_db(db_path=path, verbose=False)]
+                    got = aux_retrieve(lambda: im.S.isotherms_from_db(db_path=path, verbose=False), ctx)
                     ctx['retrieval'] = retrieval_check(path, None, got)
                     same = [x for x in got if x.iso_id == iid]
                     # the retrieved twin of the stored isotherm: same id if the property holds; else the one built from the same row
@@ -992,6 +1249,8 @@ def run_history(im, I, H, nfiles, raw0, capture=None, lean=False, cuts=()):
         if len(steps) in cuts and nfiles == 1:
             segs.append((len(steps), raw_dump(path), sorted(I.atom(x.name) for x in im.AL), sorted(I.atom(x.name) for x in im.ML)))
         oc, nst, term, res, obj = apply_op(im, op, path, I)
+        if im.last_pterm is None:
+            continue            # the argument could not even be built (refused by a constructor): no call was made on the store
         # state afterwards: every file, through an independent connection
         after = []
         for i, p in enumerate(paths):
@@ -1000,7 +1259,7 @@ def run_history(im, I, H, nfiles, raw0, capture=None, lean=False, cuts=()):
                 capture[1]['after'] = raw
             after.append(dict(tabs=encode(raw, I), counters=raw['_counters'], fk=raw['_fk']))
         reg2 = im.registry(I)
-        st = dict(f=f, op=op, oc=oc, n=nst, term=term, ctx=ctx,
+        st = dict(f=f, op=op, oc=oc, n=nst, term=term, pterm=im.last_pterm, ctx=ctx,
                   diff=table_diff(cur[f]['tabs'] + reg, after[f]['tabs'] + reg2), counters=after[f]['counters'],
                   others_changed=[i for i in range(nfiles) if i != f and (after[i]['tabs'] != cur[i]['tabs'] or after[i]['counters'] != cur[i]['counters'])],
                   fk=after[f]['fk'], ret=norm_ret(op, res, I, {I.atom(r[1]) for r in raw0['adsorbates']}), checks=[])
@@ -1012,14 +1271,16 @@ def run_history(im, I, H, nfiles, raw0, capture=None, lean=False, cuts=()):
             if bad:
                 st['checks'].append(('retrieval-incomplete', bad))
         if oc != 'Ok' and changed_file:
-            st['checks'].append(('refused-changed-file', 'refused call changed the database file'))
+            changed = [t for t, a, b in zip(TABLES, cur[f]['tabs'], after[f]['tabs']) if a != b]
+            st['checks'].append(('refused-changed-file', '%s is refused (%s) after %d statement(s), yet the database file changed: rows %s'
+                                 % (_plain(op), oc, nst, ', '.join('%s %d -> %d' % (t, len(cur[f]['tabs'][TABLES.index(t)]), len(after[f]['tabs'][TABLES.index(t)])) for t in changed))))
         if oc != 'Ok' and reg2 != reg:
             new = {r[0] for r in reg2[0]} - {r[0] for r in reg[0]} | {r[0] for r in reg2[1]} - {r[0] for r in reg[1]}
             leaked |= new
         # round trip of accepted uploads, on the implementation
         if oc == 'Ok' and op['k'] == 'EntUp':
             im.px.n = 0
-            got = (im.S.adsorbates_from_db if op['e'] == 'ads' else im.S.materials_from_db)(db_path=path, verbose=False)
+            got = aux_retrieve(lambda: (im.S.adsorbates_from_db if op['e'] == 'ads' else im.S.materials_from_db)(db_path=path, verbose=False), ctx)
             back = [x for x in got if x.name == obj.name]
             want = _pairs(obj)
             have = _pairs(back[0]) if len(back) == 1 else None
@@ -1030,7 +1291,7 @@ def run_history(im, I, H, nfiles, raw0, capture=None, lean=False, cuts=()):
             uploaded[f].append((obj.iso_id, obj, op['iso']['meta'], op['iso']))
         if oc == 'Ok' and op['k'] == 'IsoUp' and op.get('verify', True):
             im.px.n = 0
-            got = im.S.isotherms_from_db(db_path=path, verbose=False)
+            got = aux_retrieve(lambda: im.S.isotherms_from_db(db_path=path, verbose=False), ctx)
             bad = retrieval_check(path, None, got)
             if bad:
                 st['checks'].append(('retrieval-incomplete', bad))
@@ -1043,6 +1304,8 @@ def run_history(im, I, H, nfiles, raw0, capture=None, lean=False, cuts=()):
                                          % (obj.iso_id, {k: v for k, v in obj.to_dict().items() if k not in UNITS}, [{k: v for k, v in x.to_dict().items() if k not in UNITS} for x in twin[-2:]])))
         if op['k'] == 'IsoDel' and op['how'] == 'retrieved' and not ctx.get('retrieved_same_id', True):
             st['checks'].append(('delete-through-retrieved', 'isotherm %s retrieved from the file has id %s; deleting through it -> %s' % (ctx['stored_id'], op['target'], oc)))
+        if ctx.get('retrieval_raises'):
+            st['checks'].append(('store-unreadable', ctx['retrieval_raises']))
         if oc == 'Ok' and op['k'] == 'IsoDel':
             uploaded[f] = [u for u in uploaded[f] if u[0] != op['target']]
         if oc == 'Ok' and op['k'] == 'EntDel':
@@ -1129,7 +1392,9 @@ def judge(rep, runs, model, I, header=None, raw0=None):
                        'deletions by name/object/id/retrieved object, retrievals with/without criteria, duplicates, absent items, None / numeric-looking '
                        'text / list / zero-like (0, 0.0, -0.0, empty string, False) values) + stores holding more isotherms than one and than two batches of the '
                        'batch size found in the source (retrieved with and without criteria, counted against rows read through an independent connection, '
-                       'deleted through retrieved objects of the last batch); non-trivial = distinct accepted operations that changed a table, agreed with the '
+                       'deleted through retrieved objects of the last batch) + uploads refused part-way by Python-level code (unbindable property / metadata '
+                       'values of 3 exception classes, extra data columns of int / bool / str / float / big-int elements, non-isotherm arguments, '
+                       'unbindable arguments of deletions / retrievals / type uploads), alone and inside random histories; non-trivial = distinct accepted operations that changed a table, agreed with the '
                        'model on every row and were accepted with equal content by the dictionary model')
     d = rep.cov.setdefault('input_distribution', {})
     for k, v in hist.items():
@@ -1153,7 +1418,9 @@ def run(rep, tier, seed):
         explore(rep, 'thorough', seed + 1, nh=400)
     rep.cov['trusted_base'] += ['SQLite / python sqlite3 (constraint enforcement, AUTOINCREMENT, transactions): modelled, compared row by row on every call',
                                 'harness interning of strings and numbers; isotherm construction and iso_id (hash) are oracles']
-    rep.assumptions += ['values are interned: numbers by their float value (3 and 3.0 are the same stored value)',
+    rep.assumptions += ['which Python values sqlite3 can bind is decided by the harness from the TYPE of the value (None, bool, int within 64 bits, float, UTF-8 encodable str); '
+                        'the model then says where the call is refused and with which class - compared with the implementation on every such call',
+                        'values are interned: numbers by their float value (3 and 3.0 are the same stored value)',
                         'theorems outcome_depends_on_target_file_only_partial / history_files_independent_partial exclude auto-inserting isotherm uploads (they read the registries)', ('refinement to the dictionary is PROVED for adsorbate / material upload, overwrite and deletion, type upload / overwrite / deletion, isotherm upload without auto-insert, isotherm deletion and the retrievals (under the invariant wf, '
                          'proved preserved by every operation and decided by evaluation for the initial content of this run); for isotherm uploads with auto-insert '
                          'it is checked per step inside Coq at run time'), 'the property names of one upload are distinct (keys of a Python dict)']
